@@ -22,6 +22,7 @@ import (
 	"verif/hist"
 	"verif/run"
 	"verif/sim"
+	"verif/txgen"
 )
 
 func TestMain(m *testing.M) {
@@ -33,10 +34,19 @@ func TestMain(m *testing.M) {
 // after the farm prefix.
 type Subject struct {
 	Kind string `json:"kind"`
-	Pre  int    `json:"pre"` // empty blocks between the farm prefix and the subject block
+	Pre  int    `json:"pre"` // empty blocks between the farm prefix and the subject's first block
+	// Mode says what the node saw of the ORIGINAL before it sees the mutants ("the oracle must
+	// hold regardless of what the node saw before", e.g. validation caches):
+	//   fresh          nothing
+	//   primed-check   the original passed through CheckTx on the same node and is not delivered
+	//   primed-deliver the original was delivered (executed) in the block before
+	Mode string `json:"mode,omitempty"`
 	Orig []byte `json:"orig"`
 	Muts []Mut  `json:"mutants"`
+	note string // generator bookkeeping note of the original (OLVM nonce)
 }
+
+var modes = []string{"fresh", "primed-check", "primed-deliver"}
 
 // Case is the replay payload.
 type Case struct {
@@ -58,7 +68,17 @@ type violation struct {
 var roles = []sim.Role{{ValIdx: 0, IsWitness: true}, {ValIdx: 0, IsWitness: true}, {ValIdx: 0, IsWitness: true}}
 
 // buildWorld builds the farm world of a case.
-func buildWorld(seed string, o hist.FarmOpts) (*hist.World, *hist.Farm, error) {
+func buildWorld(seed string, o hist.FarmOpts) (w *hist.World, f *hist.Farm, err error) {
+	// (a loaded machine can fail to open the scratch databases: try again before giving up)
+	for attempt := 0; attempt < 3; attempt++ {
+		if w, f, err = buildWorldOnce(seed, o); err == nil {
+			return
+		}
+	}
+	return
+}
+
+func buildWorldOnce(seed string, o hist.FarmOpts) (*hist.World, *hist.Farm, error) {
 	p := hist.PrepareFarmParams(hist.FarmParams(seed), o)
 	w, err := hist.NewWorld(p, roles)
 	if err != nil {
@@ -90,6 +110,7 @@ type mutRes struct {
 
 type subjRes struct {
 	kind      string
+	mode      string
 	ctlCheck  uint32
 	ctlDeliv  uint32
 	ctlLog    string
@@ -123,7 +144,7 @@ func evalSubject(w *hist.World, c *Case, s *Subject) (*subjRes, *violation) {
 		if m != nil {
 			ms = []Mut{*m}
 		}
-		return &Case{Seed: c.Seed, Opts: c.Opts, Subjects: []Subject{{Kind: s.Kind, Pre: s.Pre, Orig: s.Orig, Muts: ms}}}
+		return &Case{Seed: c.Seed, Opts: c.Opts, Subjects: []Subject{{Kind: s.Kind, Pre: s.Pre, Mode: s.Mode, Orig: s.Orig, Muts: ms}}}
 	}
 	panicked := func(where string, m *Mut) *violation {
 		for i, r := range w.R {
@@ -142,9 +163,7 @@ func evalSubject(w *hist.World, c *Case, s *Subject) (*subjRes, *violation) {
 	if err != nil {
 		return nil, &violation{"harness", s.Kind, "own parse rejects the original: " + err.Error(), minCase(nil)}
 	}
-	if v, why := auth(po, chainID); v != vAuthentic {
-		return nil, &violation{"harness", s.Kind, "oracle self-check: the well-formed original is not authentic by the oracle: " + why, minCase(nil)}
-	}
+	origVerdict, origWhy := auth(po, chainID)
 
 	tmpl := w.C.MakeBlock(sim.BlockSpec{GapSecs: 5})
 
@@ -160,6 +179,41 @@ func evalSubject(w *hist.World, c *Case, s *Subject) (*subjRes, *violation) {
 	res.ctlCheck, res.ctlDeliv = ck.Code, sp.Txs[0].Code
 	res.ctlLog = ck.Log + " | " + sp.Txs[0].Log
 	control := ck.Code == 0 && sp.Txs[0].Code == 0
+	res.mode = s.Mode
+	if origVerdict != vAuthentic {
+		// the transaction was signed by the right keys with the repository's own signing bytes; if the
+		// oracle's canonical (type, data, fee, memo) bytes are not what those signatures cover and the
+		// application accepts it, signatures do not cover exactly the stated content
+		if ck.Code == 0 || sp.Txs[0].Code == 0 {
+			return res, &violation{"signed-bytes", s.Kind + "/original",
+				fmt.Sprintf("the well-formed %s transaction is accepted (CheckTx code %d, DeliverTx code %d) but its signatures do not verify over the canonical serialisation of exactly (type, data, fee, memo): %s. tx=%s", s.Kind, ck.Code, sp.Txs[0].Code, origWhy, short(s.Orig)), minCase(nil)}
+		}
+		return res, &violation{"harness", s.Kind, "oracle self-check: the well-formed original is neither authentic by the oracle nor accepted: " + origWhy, minCase(nil)}
+	}
+
+	// priming: what the subject node (and, identically, its twin) saw of the original before
+	switch s.Mode {
+	case "primed-check":
+		r0.CheckTx(s.Orig)
+		r1.CheckTx(s.Orig)
+		if v := panicked("priming CheckTx of the original", nil); v != nil {
+			return res, v
+		}
+	case "primed-deliver":
+		// the original is executed for real in this block on every replica; the mutants follow in the next
+		p0 := r0.RunBlock(withTxs(tmpl, [][]byte{s.Orig}))
+		p1 := r1.RunBlock(withTxs(tmpl, [][]byte{s.Orig}))
+		p2 := r2.RunBlock(withTxs(tmpl, [][]byte{s.Orig}))
+		if v := panicked("the priming block executing the original", nil); v != nil {
+			return res, v
+		}
+		_ = w.C.Advance(p1.AppHash, p1.Updates)
+		if !bytes.Equal(p0.AppHash, p1.AppHash) {
+			return res, &violation{"harness", s.Kind, "subject and twin differ after executing the original in the priming block", minCase(nil)}
+		}
+		w.Observe([]txgen.Tx{{Bytes: s.Orig, Kind: s.Kind, Note: s.note}}, p2)
+		tmpl = w.C.MakeBlock(sim.BlockSpec{GapSecs: 5})
+	}
 
 	// mutants: classify, mempool check
 	var deliver []int
@@ -246,7 +300,7 @@ func evalSubject(w *hist.World, c *Case, s *Subject) (*subjRes, *violation) {
 			diff = diff[:8]
 		}
 		var ops []string
-		mc := &Case{Seed: c.Seed, Opts: c.Opts, Subjects: []Subject{{Kind: s.Kind, Pre: s.Pre, Orig: s.Orig}}}
+		mc := &Case{Seed: c.Seed, Opts: c.Opts, Subjects: []Subject{{Kind: s.Kind, Pre: s.Pre, Mode: s.Mode, Orig: s.Orig}}}
 		for _, i := range deliver {
 			ops = append(ops, s.Muts[i].Op)
 			mc.Subjects[0].Muts = append(mc.Subjects[0].Muts, s.Muts[i])
@@ -274,6 +328,9 @@ func runCase(c *Case) ([]*subjRes, *violation) {
 		}
 		r, v := evalSubject(w, c, s)
 		pre++
+		if s.Mode == "primed-deliver" {
+			pre++
+		}
 		if r != nil {
 			out = append(out, r)
 		}
@@ -312,13 +369,18 @@ func buildMutants(w *hist.World, f *hist.Farm, kind string, orig []byte, c choos
 	return x.nativeMutants(), nil
 }
 
+var noted = map[string]bool{}
+
 func record(h *run.H, rs []*subjRes) {
 	for _, r := range rs {
 		if r.ctlCheck == 0 && r.ctlDeliv == 0 {
 			h.Class("control-accepted:"+r.kind, 1)
 		} else {
 			h.Class("control-REJECTED:"+r.kind, 1)
-			h.Note(fmt.Sprintf("control rejected %s: check=%d deliver=%d %s", r.kind, r.ctlCheck, r.ctlDeliv, r.ctlLog))
+			if !noted[r.kind] {
+				noted[r.kind] = true
+				h.Note(fmt.Sprintf("control rejected %s: check=%d deliver=%d %s", r.kind, r.ctlCheck, r.ctlDeliv, r.ctlLog))
+			}
 		}
 		for _, sv := range r.survey {
 			h.Class("SURVEY:"+sv, 1)
@@ -332,12 +394,12 @@ func record(h *run.H, rs []*subjRes) {
 			if key != "" {
 				sample = map[string]string{"kind": r.kind, "operator": m.op, "oracle": m.verdict, "result": "rejected by CheckTx, non-zero in DeliverTx, state equal to the twin's"}
 			}
-			h.Eval(key, []string{"op:" + opClass(m.op), "kind:" + r.kind, "verdict:" + m.verdict}, sample)
+			h.Eval(key, []string{"op:" + opClass(m.op), "kind:" + r.kind, "verdict:" + m.verdict, "mode:" + r.mode}, sample)
 		}
 	}
 }
 
-const rule = "for each of the 33 transaction kinds: a well-formed signed transaction applicable in a warmed-up state x every single-field mutation operator (payload byte flip / member replacement, fee value / currency / gas, memo, type, signer key bytes, key algorithm tag incl. btcecsecp / ethsecp / unknown / empty, signature flip / truncate / extend / pre-hash tag, signature list drop / duplicate / reorder / append / prepend foreign, wrong key re-signing, victim address with re-signing, empty signer with btcec key; OLVM: EIP-155 fields, memo, unsigned payload members); oracle = own parse + own required-signer table + direct crypto-library verification; non-trivial = the mutant is unauthentic by the oracle and its original was accepted by CheckTx and succeeded in DeliverTx on the twin; distinct by (kind, operator)"
+const rule = "for each of the 33 transaction kinds: a well-formed signed transaction applicable in a warmed-up state x every single-field mutation operator (payload byte flip / member replacement, fee value / currency / gas, memo, type, signer key bytes, key algorithm tag incl. btcecsecp / ethsecp / unknown / empty, signature flip / truncate / extend / pre-hash tag, signature bytes reused unchanged from another slot / another transaction of the same key / a foreign key, signature list drop / duplicate / reorder / byte swap / copies of the first / append / prepend foreign, wrong key re-signing, victim address with re-signing, empty signer with btcec key; OLVM: EIP-155 fields, memo, unsigned payload members) x what the node saw of the original before (nothing; the original passed CheckTx on the same node; the original was executed in the previous block); oracle = own parse + own required-signer table + direct crypto-library verification; non-trivial = the mutant is unauthentic by the oracle and its original was accepted by CheckTx and succeeded in DeliverTx on the control replica; distinct by (kind, operator)"
 
 func TestC04(t *testing.T) {
 	h := run.Start(t, "C04")
@@ -368,6 +430,7 @@ func TestC04(t *testing.T) {
 		defer w.Close()
 		var results []*subjRes
 		defer func() { record(h, results) }()
+		blocks := 0
 		for k := 0; k < perCase; k++ {
 			kind := hist.FarmKinds[(start+k)%len(hist.FarmKinds)]
 			tx, err := f.Make(kind)
@@ -378,7 +441,11 @@ func TestC04(t *testing.T) {
 			if err != nil {
 				h.Fail(rt, "harness", "C04/harness/mutants", c, "%v", err)
 			}
-			s := Subject{Kind: kind, Pre: k, Orig: tx.Bytes, Muts: muts}
+			s := Subject{Kind: kind, Pre: blocks, Mode: modes[u.N(len(modes), "mode")], Orig: tx.Bytes, Muts: muts, note: tx.Note}
+			blocks++
+			if s.Mode == "primed-deliver" {
+				blocks++
+			}
 			c.Subjects = append(c.Subjects, s)
 			h.Journal(&Case{Seed: c.Seed, Opts: c.Opts, Subjects: []Subject{s}})
 			r, v := evalSubject(w, c, &c.Subjects[len(c.Subjects)-1])
